@@ -41,4 +41,8 @@ theorem set_sites_reviewed : ∀ s ∈ Gen.setSites, s ∈ reviewed := by decide
 example : Gen.setSites ≠ [] := by decide
 example : ¬ (("graphtage.py", "_child_edits", "for", "unshared_kvps") ∈ reviewed) := by decide
 
+-- [audit] non-vacuity / triviality: the hand-kept allow-list is literally the generated table, so the theorem
+-- is `xs ⊆ xs`; it says nothing about outputs, hash seeds or input mutation (it is a source lint tripwire)
+example : Gen.setSites = reviewed := by decide
+
 end GtModel.C07
